@@ -565,8 +565,8 @@ def plan(tier):
 def describe(results, agg):
     return {
         "rule": "a run = 1-3 adapters (3 reduce and 3 element-wise numpy functions with keyword-only options, instrumented) + a history of 4-25 calls with structured descriptions "
-                "(axis lists with sizes, bracket sets, parenthesised groups, output permutations, implicit/explicit outputs); 45% of the calls repeat an earlier description with new / "
-                "repeated / equal-but-differently-typed keyword values; kinds: exec, graph=True, axis-name clash, unknown keyword; every third run makes functions misbehave. "
+                "(axis lists with sizes, bracket sets incl. the empty one, parenthesised groups, output permutations, implicit/explicit outputs); 45% of the calls repeat an earlier description with new / "
+                "repeated / equal-but-differently-typed / hash-colliding (-1 vs -2, 0.0 vs -0.0) keyword values; kinds: exec, graph=True, axis-name clash, unknown keyword; every third run makes functions misbehave. "
                 "distinct_nontrivial = distinct (function, call kind, cache state, fault, output style, grouping, keyword names and types) tuples judged",
         "logical_steps": agg["stats"].get("ops", 0),
         "scope_note": "history / fault clauses are decided per history, the quantification over descriptions and shapes is sampled by the generator; adapt_with_vmap is not reachable (no vmap framework installed)",
